@@ -329,8 +329,9 @@ def rule_selection(ctx, fi):
 
 
 def rule_strict(ctx):
-    ctx.rule('R4', 'strict rule: +1/-1 inclusive-stop correction, open bounds stay None', 6)
+    ctx.rule('R4', 'strict rule: +1/-1 inclusive-stop correction, open bounds stay None, no wrap-around at position 0', 6)
     fi = ctx.fn(STRICT)
+    l1 = ctx.fn('dimarray.core.indexing.locate_one')
     for stepkind, has_start, has_stop in itertools.product(['none', 'pos', 'neg'], [True, False], [True, False]):
         facts = dict(step_facts(stepkind))
         facts[T.mkcmp('is', START, T.CONST_NONE)] = not has_start
@@ -338,46 +339,92 @@ def rule_strict(ctx):
         ev = run(ctx, fi, facts=facts)
         inst = 'step %s, start %s, stop %s' % (stepkind, has_start, has_stop)
         ok = True
+        # the locate_one calls of this scenario (in values or guards), by bound
+        locs = {}
+        for p in ev.paths:
+            for src in [p.value] + [a for a, _ in p.guards]:
+                for c in T.calls_in(src, 'locate_one'):
+                    b = bind_call_args(c, l1)
+                    if b.get('values') != VALUES or b.get('val') not in (START, STOP):
+                        ctx.violated('R4', fi, T.show(c), 'strict bounds are located with locate_one(values, start|stop), got %s' % T.show(c), node=p.node)
+                        ok = False
+                        continue
+                    if b.get('tol') is not None or (b.get('side') not in (None, const('left'))):
+                        ctx.violated('R4', fi, T.show(c), 'strict bounds must be exact first matches (no tolerance, left side)', node=p.node)
+                        ok = False
+                        continue
+                    locs.setdefault('start' if b['val'] == START else 'stop', set()).add(c)
+        for which, given in (('start', has_start), ('stop', has_stop)):
+            if given and len(locs.get(which, ())) != 1:
+                ctx.undecide('R4', '%s: expected exactly one locate_one(values, %s) term, found %d' % (inst, which, len(locs.get(which, ()))))
+                ok = False
+        if not ok:
+            continue
+        N = 5
+        covered = set()
         for p in ev.paths:
             v = p.value
             if p.kind != 'return' or v[0] != 'tuple' or len(v[1]) != 2:
                 ctx.undecide('R4', 'unexpected outcome %s %s' % (p.kind, T.show(v)))
                 ok = False
                 continue
-            for which, comp, given in (('start', v[1][0], has_start), ('stop', v[1][1], has_stop)):
-                bound = START if which == 'start' else STOP
-                if not given:
-                    if comp != T.CONST_NONE:
-                        ctx.violated('R4', fi, 'open %s' % which, 'omitted %s bound must stay None, got %s'
-                                     % (which, T.show(comp)), node=p.node)
+            for ka, kb in itertools.product(range(N), range(N)):
+                atoms = {('attr', VALUES, 'size'): N, ('call', ('name', 'len'), (VALUES,), ()): N}
+                for which, k in (('start', ka), ('stop', kb)):
+                    for c in locs.get(which, ()):
+                        atoms[c] = k
+                feas = True
+                for a, pol in p.guards:
+                    if not any(c in atoms for c in T.calls_in(a, 'locate_one')):
+                        continue
+                    r = bool_eval(a, atoms)
+                    if r is None:
+                        ctx.undecide('R4', '%s: guard %s not evaluable' % (inst, T.show(a)[:80]))
                         ok = False
+                        feas = False
+                        break
+                    if r != pol:
+                        feas = False
+                        break
+                if not feas:
                     continue
-                locs = [c for c in T.calls_in(comp, 'locate_one')]
-                if len(locs) != 1:
-                    ctx.undecide('R4', 'expected one locate_one in %s' % T.show(comp))
-                    ok = False
-                    continue
-                b = bind_call_args(locs[0], ctx.fn('dimarray.core.indexing.locate_one'))
-                if b.get('values') != VALUES or b.get('val') != bound:
-                    ctx.violated('R4', fi, T.show(locs[0]), 'the %s position must be locate_one(values, %s), got %s'
-                                 % (which, which, T.show(locs[0])), node=p.node)
-                    ok = False
-                    continue
-                if b.get('tol') is not None or (b.get('side') not in (None, const('left'))):
-                    ctx.violated('R4', fi, T.show(locs[0]), 'strict bounds must be exact first matches '
-                                 '(no tolerance, left side)', node=p.node)
-                    ok = False
-                    continue
-                for k in (0, 3):
-                    got = int_eval(comp, {locs[0]: k})
+                covered.add((ka, kb))
+                for which, comp, given, k in (('start', v[1][0], has_start, ka), ('stop', v[1][1], has_stop, kb)):
+                    comp = strip_trivial(comp)
+                    if not given:
+                        if comp != T.CONST_NONE:
+                            ctx.violated('R4', fi, 'open %s' % which, 'omitted %s bound must stay None, got %s' % (which, T.show(comp)), node=p.node)
+                            ok = False
+                        continue
+                    got = None if comp == T.CONST_NONE else int_eval(comp, atoms)
+                    if comp != T.CONST_NONE and got is None:
+                        ctx.undecide('R4', '%s: %s position %s not evaluable' % (inst, which, T.show(comp)[:80]))
+                        ok = False
+                        continue
                     want = k if which == 'start' else (k + 1 if stepkind in ('none', 'pos') else k - 1)
-                    if got != want:
-                        ctx.violated('R4', fi, 'i%s = %s' % (which, T.show(comp)),
+                    if want == -1:
+                        # negative step, stop label in first position: the selection runs down to and including position 0; as a slice
+                        # bound -1 means "the last element" (empty, wrapped-around selection): only None or <= -size-1 expresses it
+                        if not (comp == T.CONST_NONE or got <= -N - 1):
+                            ctx.violated('R4', fi, 'istop = %s' % T.show(v[1][1])[:80],
+                                         'strict rule, negative step: when the stop label sits at position 0 the stop position becomes %s; as a slice bound -1 '
+                                         'is the last element, so a[start:first_label:-1] is empty instead of running down to the first element '
+                                         '(the bound must become None / open)' % got, node=p.node)
+                            ok = False
+                        continue
+                    if comp == T.CONST_NONE or got != want:
+                        ctx.violated('R4', fi, 'i%s = %s' % (which, T.show(v[1][0] if which == 'start' else v[1][1])[:80]),
                                      'strict rule, step %s: label found at position %d must give %s position %d '
-                                     '(stop is inclusive), the code yields %s' % (stepkind, k, which, want, got),
+                                     '(stop is inclusive), the code yields %s' % (stepkind, k, which, want, got if comp != T.CONST_NONE else None),
                                      node=p.node)
                         ok = False
-                        break
+                if not ok:
+                    break
+            if not ok:
+                break
+        if ok and len(covered) != N * N:
+            ctx.undecide('R4', '%s: only %d of %d (istart, istop) positions are covered by a returning path' % (inst, len(covered), N * N))
+            ok = False
         if ok:
             ctx.holds('R4', inst, sample=[T.show(p.value) for p in ev.paths][:2])
 
@@ -534,6 +581,9 @@ def check(ctx):
     rule_strict(ctx)
     rule_plumbing(ctx)
     rule_predicates(ctx)
+    # a label slice combined with scalar / list indices on other dimensions goes through orthogonal_indexer (shared with C01)
+    from . import c01
+    c01.rule_orthogonal_indexer(ctx, rid='R8')
     ctx.not_decided += ['is_monotonic_equal on arrays with repeated values (value level)', 'float rounding',
                         "NumPy's searchsorted semantics (trusted: first i with a[i] >= v is side='left', "
                         "first i with a[i] > v is side='right')"]
